@@ -1639,7 +1639,7 @@ func (e *Engine) indexAddr(st *State, fr *Frame, in *ssa.IndexAddr) []*State {
 	}
 	// an array/slice of scalars: no fork — a symbolic element pointer whose load is an ite-chain over the elements and
 	// whose store is a conditional update of each (a table lookup such as strings.asciiSpace[c] would otherwise fork 256 ways)
-	if o, ok := st.heap[obj]; ok || e.gheap[obj] != nil {
+	if o, ok := st.heap[obj]; (ok || e.gheap[obj] != nil) && os.Getenv("VERIF_NOSYMPTR") == "" {
 		if !ok {
 			o = e.gheap[obj]
 		}
